@@ -36,12 +36,13 @@ import tlc
 
 logging.disable(logging.CRITICAL)
 
-TIMEOUT_S = 5.0          # alarm in the child (Hostile!Budget)
-GRACE_S = 3.0            # then the parent kills the child
+TIMEOUT_S = 5.0          # processor-time alarm in the child (Hostile!Budget)
+WALL_S = 90.0            # wall-clock deadline per case, enforced by the parent (SIGKILL)
 AS_LIMIT = 1 << 30       # RLIMIT_AS of the child
 NPROC = 16
 SECTOR = 2048
 DOCUMENTED = ('ok', 'PyCdlibInvalidISO', 'PyCdlibInvalidInput', 'PyCdlibInternalError')
+LOOP_CLAUSES = ('Timeout', 'MemoryBlowup')
 
 
 # =============================================================================================
@@ -481,6 +482,11 @@ class _Alarm(BaseException):
     pass
 
 
+def _cpu():
+    ru = resource.getrusage(resource.RUSAGE_SELF)
+    return ru.ru_utime + ru.ru_stime
+
+
 def _on_alarm(signum, frame):
     raise _Alarm()
 
@@ -559,9 +565,12 @@ def _child(data, touched, cut):
     fp = RecIO(data)
     res = {'result': 'ok', 'phase': 'open', 'memory_error': False, 'timeout': False, 'where': '',
            'after_open': 'ok', 'after_where': '', 'digest': ''}
-    signal.signal(signal.SIGALRM, _on_alarm)
+    # The budget is processor time (ITIMER_PROF): the check shares the machine with other jobs and
+    # wall time of a 1 ms parse was seen to vary by 1000x; an endless loop burns processor time.
+    signal.signal(signal.SIGPROF, _on_alarm)
     t0 = det.real_time()
-    signal.setitimer(signal.ITIMER_REAL, TIMEOUT_S)
+    c0 = _cpu()
+    signal.setitimer(signal.ITIMER_PROF, TIMEOUT_S)
     iso = pycdlib.PyCdlib()
     try:
         try:
@@ -578,12 +587,13 @@ def _child(data, touched, cut):
             res['result'] = exc_name(e)
             res['where'] = _where(sys.exc_info()[2])
             res['msg'] = str(e)[:120]
-        res['elapsed_ms'] = int((det.real_time() - t0) * 1000)
+        res['elapsed_ms'] = int((_cpu() - c0) * 1000)
+        res['wall_ms'] = int((det.real_time() - t0) * 1000)
         res['peak_kb'] = max(0, resource.getrusage(resource.RUSAGE_SELF).ru_maxrss - rss0)
         if res['result'] == 'ok':
             # what a consumer does next; observed, but the property speaks about opening only
             res['phase'] = 'walk'
-            signal.setitimer(signal.ITIMER_REAL, TIMEOUT_S)
+            signal.setitimer(signal.ITIMER_PROF, TIMEOUT_S)
             try:
                 res['digest'] = _traverse(iso)
                 res['phase'] = 'close'
@@ -601,7 +611,7 @@ def _child(data, touched, cut):
     except _Alarm:
         res['after_open'] = 'timeout'
     finally:
-        signal.setitimer(signal.ITIMER_REAL, 0)
+        signal.setitimer(signal.ITIMER_PROF, 0)
     res['total_ms'] = int((det.real_time() - t0) * 1000)
     res['nreads'] = fp.nreads
     reached = False
@@ -672,7 +682,7 @@ def _dead(case, killed, status):
             'timeout': killed, 'memory_error': False,
             'where': 'killed by harness' if killed else 'exit status %d' % status,
             'after_open': 'ok', 'after_where': '', 'digest': '',
-            'elapsed_ms': int((TIMEOUT_S * 2 + GRACE_S) * 1000) if killed else 0,
+            'elapsed_ms': int(WALL_S * 1000) if killed else 0,
             'total_ms': 0, 'peak_kb': 0, 'nreads': 0, 'read_reached': True}
 
 
@@ -700,7 +710,7 @@ def run_forked(cases, out):
         finally:
             os._exit(code)
     os.close(w)
-    per_case = TIMEOUT_S * 2 + GRACE_S     # (open and traversal each get an alarm's worth)
+    per_case = WALL_S
     deadline = det.real_time() + per_case
     buf = b''
     ndone = 0
@@ -964,6 +974,7 @@ def run(ctx):
         for (st, sha) in attrib[b.name]:
             if len(st['faults']) == 1 and sha is not None:
                 single_obs[(b.name, _fkey(st['faults'][0]))] = sha_to_id[(b.name, sha)]
+    dump = []
     for cid in sorted(fails):
         if cid.endswith('#base'):
             ctx.violation({'clause': fails[cid], 'structure': 'base image'}, obs[cid], {'base': cid})
@@ -976,17 +987,33 @@ def run(ctx):
             blame = c['faults']
             if len(blame) > 1:
                 # 1-minimal: a pair whose failure one of its faults produces alone is that fault's
+                # (an endless loop shows as Timeout and/or MemoryBlowup: one class)
+                same = LOOP_CLAUSES if clause in LOOP_CLAUSES else (clause,)
                 for f in c['faults']:
                     sid = single_obs.get((c['base'], _fkey(f)))
-                    if sid is not None and clause in fails.get(sid, []) and obs[sid]['result'] == r['result']:
+                    if sid is not None and set(same) & set(fails.get(sid, [])) and obs[sid]['result'] == r['result']:
                         blame = [f]
                         break
             sig = fault_sig(clause, r, blame)
+            if len(blame) > 1:
+                # a genuinely combined pair: it belongs to a listed finding when one of its faults
+                # is of that finding's class (the other fault only opened the way); otherwise it is
+                # reported with both faults in the signature
+                for f in blame:
+                    sf = fault_sig(clause, r, [f])
+                    if any(checklib.sig_matches(k['signature'], sf) for k in ctx.known):
+                        sig = sf
+                        break
             detail = {'base': c['base'], 'faults': c['faults'], 'result': r['result'], 'where': r['where'],
                       'msg': r.get('msg', ''), 'elapsed_ms': r['elapsed_ms'], 'peak_kb': r['peak_kb']}
             ctx.note('fail_' + clause)
+            dump.append({'sig': sig, 'detail': detail})
             if ctx.violation(sig, detail, {'base': c['base'], 'faults': c['faults'], 'seed': ctx.seed}):
                 ctx.note('unlisted_' + clause)
+
+    if os.environ.get('C15_DUMP'):      # development aid: every failing observation with its signature
+        with open(os.environ['C15_DUMP'], 'w') as fh:
+            json.dump(dump, fh)
 
     # ---- 6. coverage ---------------------------------------------------------------------------------------------
     by_role = {}
@@ -1067,15 +1094,18 @@ def run(ctx):
         'unreached_samples': unreached_samples,
         'failing_observations': len(fails),
         'sampled_pairs': sum(len(v) for v in pairs.values()),
-        'budget': {'timeout_ms': int(TIMEOUT_S * 1000), 'slowest_nominal_open_ms': max(nominal.values()),
+        'budget': {'timeout_ms_processor_time': int(TIMEOUT_S * 1000), 'slowest_nominal_open_ms': max(nominal.values()),
+                   'slowest_terminating_open_ms': max([obs[c['id']]['elapsed_ms'] for c in cases if not obs[c['id']]['timeout']] or [0]),
+                   'largest_peak_growth_kb_of_terminating_open': max([obs[c['id']]['peak_kb'] for c in cases if not obs[c['id']]['timeout'] and not obs[c['id']]['memory_error']] or [0]),
                    'rlimit_as_bytes': AS_LIMIT, 'mem_budget_kb': 131072},
     })
     ctx.assumptions += [
         'TLC/SANY; spec/Hostile.tla (fault alphabet), spec/Judge_Hostile.tla (clauses)',
         'harness/inventory.py finds the structures the parser follows in the base images (independent walker written '
         'from ECMA-119, SUSP/RRIP, El Torito, ECMA-167/UDF, UEFI GPT; the "reached" measurement cross-checks it)',
-        'a 5 s alarm (>= 700x the slowest nominal open) separates an endless loop from a slow parse; RLIMIT_AS 1 GiB and '
-        '128 MiB growth of the peak RSS separate disproportionate memory use from normal use on images <= 1 MiB',
+        'a 5 s processor-time alarm (>= 1000x the slowest nominal open; wall time is not used because the machine is '
+        'shared) separates an endless loop from a slow parse; RLIMIT_AS 1 GiB and 128 MiB growth of the peak RSS separate '
+        'disproportionate memory use from normal use on images <= 1 MiB',
         'what a consumer does after a successful open (list_children over every namespace, close) is observed and '
         'reported under after_open_anomalies_not_judged, not judged: the statement speaks about opening',
     ]
